@@ -321,13 +321,26 @@ def store_contract(rep: Report, tier: str) -> int:
     for (i, h) in enumerate(hs):
         ps = ["concat", "depth", "dots"][i % 3]
         tasks.append(("dbfs", 0, h, ps, False))
+        if i % 2 == 0:
+            # two live store objects over the same directories (two notebooks), operations rotate over them
+            tasks.append(("dbfs@2", 0, h, ps, False))
+    # code -> spec: recorded traces of two live DBFS store objects used in alternation, judged by StoreTrace
+    traces = storeprops.record_traces(60 if tier == "quick" else 600, 16, common.seed() + 19, [("dbfs@2", 0)])
+    (tr, rejected) = storeprops.validate_traces(traces, name="strace19")
+    for rj in rejected:
+        t = rj["trace"]
+        ev = rj["event"] or {}
+        rep.violation("C19|two-handles|trace|%s|%s" % (ev.get("op") or "?", rj["clause"].replace(" ", "_")),
+                      {"store": "dbfs(fake), two live store objects in alternation", "clause": rj["clause"], "position": rj["position"],
+                       "event": ev, "paths": t["paths"], "events": t["events"][: rj["position"] + 1]})
+    rep.cov["recorded_two_handle_traces_validated_by_tlc"] = len(traces)
     results = storeprops.run_all(tasks)
     for ((kind, cap, h, ps, _), res) in zip(tasks, results):
         for (j, (x, o)) in enumerate(zip(h, res)):
             exp = storedrv.norm_model_ans(x["op"], x["ans"])
             if o["ans"] != exp:
-                rep.violation("C19|store-contract|%s|expected=%s|got=%s|pathset=%s" % (x["op"], storeprops._ans_kind(exp), storeprops._ans_kind(o["ans"]), ps),
-                              {"store": "dbfs(fake)", "pathset": storeprops.PATHSETS[ps], "ops": h[: j + 1], "expected": exp, "observed": o["ans"]})
+                rep.violation("C19|store-contract%s|%s|expected=%s|got=%s|pathset=%s" % ("-two-handles" if kind.endswith("@2") else "", x["op"], storeprops._ans_kind(exp), storeprops._ans_kind(o["ans"]), ps),
+                              {"store": "dbfs(fake)" + ("-two-handles" if kind.endswith("@2") else ""), "pathset": storeprops.PATHSETS[ps], "ops": h[: j + 1], "expected": exp, "observed": o["ans"]})
                 break
     return len(tasks)
 
